@@ -101,6 +101,12 @@ fn main() {
             }
             println!("{target}: {} seeds", seeds.len());
         }
+        let dir = cfg.verif_dir.join("corpus").join("decoders");
+        let regs = vharness::fuzzsupport::decoders_regressions();
+        for (name, data) in &regs {
+            std::fs::write(dir.join(format!("regress-{name}")), data).expect("write regression input");
+        }
+        println!("decoders: {} regression inputs (repaired defects D1-D3)", regs.len());
         return;
     }
     if id == "fuzz-replay" {
